@@ -103,6 +103,28 @@ func (i *Interpreter) Compile(ctx context.Context, src interface{}) (interface{}
 	return obj, nil
 }
 
+// copyProps copies the maps and arrays of step properties (at any
+// depth).  Other values (such as a context or a crew) are shared: they
+// are not plain data, so they cannot go through deepCopy.
+func copyProps(x interface{}) interface{} {
+	switch vv := x.(type) {
+	case map[string]interface{}:
+		acc := make(map[string]interface{}, len(vv))
+		for p, v := range vv {
+			acc[p] = copyProps(v)
+		}
+		return acc
+	case []interface{}:
+		acc := make([]interface{}, len(vv))
+		for i, v := range vv {
+			acc[i] = copyProps(v)
+		}
+		return acc
+	default:
+		return x
+	}
+}
+
 func protest(o *goja.Runtime, x interface{}) {
 	panic(o.ToValue(x))
 }
@@ -156,7 +178,10 @@ func (i *Interpreter) Exec(ctx context.Context, bs match.Bindings, props core.St
 	if props == nil {
 		env["props"] = map[string]interface{}{}
 	} else {
-		env["props"] = map[string]interface{}(props.Copy())
+		// Scripts can modify what they are given (see below
+		// for the bindings), so give them copies of the
+		// nested maps and arrays, too.
+		env["props"] = copyProps(map[string]interface{}(props))
 	}
 
 	if bs != nil {
